@@ -50,6 +50,31 @@ ROLES = {
 }
 
 
+def _iter_source_fields(facts, closure_body):
+    """[(adt short, field)] on the place that the iterator driving `closure_body` (fold / for_each / map ...) ranges over"""
+    from .common import closure_of_arg_any
+    if closure_body.kind != "Closure" or not closure_body.parent:
+        return []
+    parent = facts.body_by_path_opt(closure_body.parent)
+    if parent is None:
+        return []
+    out = []
+    for c in parent.calls():
+        if closure_of_arg_any(facts, parent, c) is not closure_body or not c.args:
+            continue
+        rp = raw_operand_place(parent, c.args[0])
+        hops = 0
+        while rp is not None and hops < 8:
+            out += [(e[3].replace(T, ""), e[2]) for e in rp[1:] if isinstance(e, list) and e[0] == "f"]
+            d = single_def(parent, rp[0])
+            if d and d[0] == "call" and d[3].args:
+                rp = raw_operand_place(parent, d[3].args[0])
+                hops += 1
+                continue
+            break
+    return out
+
+
 def ref_calls(facts):
     """[(body, call, kind, [(adt short, field)] of the argument place)]"""
     out = []
@@ -109,8 +134,10 @@ def check(ctx):
             {b.root_fn(facts).path for b in facts.in_crate(LS)
              for _bi, _k, p, _l in all_places(b)
              if any(isinstance(e, list) and e[0] == "f" and e[3] == T + st and e[2] == fld for e in p[1:])}
+        # a tail collector belongs to *this* list: the closure that collects IdentifierListList.identifier is driven by an
+        # iterator over <st>.<fld>.identifier_list_list (two lists handled in one function must not vouch for each other)
         tails = [(b, c) for b, c, k2, path, root in calls if k2 == kind and ("IdentifierListList", "identifier") in path
-                 and b.root_fn(facts).path in roots]
+                 and b.root_fn(facts).path in roots and (st, fld) in _iter_source_fields(facts, b)]
         # chain idiom: [head.clone()].iter().chain(list.iter().map(|id| &id.identifier.identifier)).for_each(add_ref)
         chained = []
         for b, c, k2, path, root in calls:
